@@ -18,12 +18,17 @@ of the code for layouts outside H1 ∧ H2 (known findings D6, D7: `C08_counterex
       non-modifier).
 All built-in layouts, README examples and unit-test layouts satisfy H1 ∧ H2.
 
-PROVED (`C08_partial_i`, under H2 only): clause (i) — while an obligation (M, t) is pending, no accepted
-press of a key other than t fires a mapping that has M in its trigger — for every layout satisfying
-H2, every history, every pending obligation; via the invariant `OblInv`: a pending obligation's M is
-still absorbed with absorbing_trigger = t, or is no longer an input key.
-Clauses (ii) and (iii) are evaluated by the monitor on every implementation transition and are not
-yet proved (named in the MANIFEST).
+PROVED (`C08_partial`): for EVERY layout satisfying H1 ∧ H2, every history and every step, the monitor
+accepts — i.e. the full statement restricted to those layouts.  Its three clauses:
+  (i)   `C08_partial_i` (H2): while an obligation (M, t) is pending, no accepted press of a key other
+        than t fires a mapping that has M in its trigger; via the invariant `OblInv`: a pending
+        obligation's M is still absorbed with absorbing_trigger = t, or is no longer an input key;
+  (ii)  `C08_partial_ii` (H1 ∧ H2): at every press of a non-modifier key by such a step M is not down on
+        the virtual keyboard, unless a mapping in effect after the step outputs M;
+  (iii) `C08_partial_iii` (H2): re-pressing t before any other key with the same keys held fires the
+        same mapping; via the invariant `FreshInv`: while the held set is the one of the firing,
+        absorbing_trigger = t and the selection predicate of a re-press is the one of the firing.
+Outside H1 ∧ H2 the monitor evaluates the clauses on every implementation transition.
 -/
 import TmVerif.Proofs.Inert
 
@@ -31,6 +36,22 @@ namespace TmVerif
 
 def H1 (L : Layout) : Prop := ∀ m, m ∈ L → ∀ y, y ∈ m.to.dropLast → isActionKey y = false
 def H2 (L : Layout) : Prop := ∀ m, m ∈ L → m.absorbing ≠ [] → isActionMapping m = true
+
+/-- the Bool forms the monitor uses to decide whether a layout is inside the theorem's scope -/
+theorem H1_iff (L : Layout) : H1 L ↔ layoutH1 L = true := by
+  simp [H1, layoutH1]
+
+theorem H2_iff (L : Layout) : H2 L ↔ layoutH2 L = true := by
+  simp only [H2, layoutH2, List.all_eq_true, Bool.or_eq_true, List.isEmpty_iff]
+  constructor
+  · intro h m hm
+    by_cases he : m.absorbing = []
+    · exact Or.inl he
+    · exact Or.inr (h m hm he)
+  · intro h m hm hne
+    rcases h m hm with h | h
+    · exact absurd h hne
+    · exact h
 
 /-- mapper + ghost history summary + pending obligations -/
 structure Sys8 where
@@ -344,6 +365,532 @@ theorem C08_partial_i_monitor (L : Layout) (h2 : H2 L) (y : Sys8) (hy : Reachabl
   | some fm =>
     have := C08_partial_i L h2 y hy ob hob k hk hkt hkM fm hf
     simpa using this
+
+/-! ### clause (ii) under H1 ∧ H2 -/
+
+theorem noMAtPresses_append (M : Key) (V : List Key) (outM : Bool) (a b : List Event) :
+    noMAtPresses M V outM (a ++ b) = (noMAtPresses M V outM a && noMAtPresses M (foldEvs V a) outM b) := by
+  induction a generalizing V with
+  | nil => simp [noMAtPresses]
+  | cons e es ih =>
+    cases e with
+    | pressed x => simp only [List.cons_append, noMAtPresses, ih, foldEvs_cons, Bool.and_assoc]
+    | released x => simp only [List.cons_append, noMAtPresses, ih, foldEvs_cons]
+
+theorem noMAtPresses_releases (M : Key) (V : List Key) (outM : Bool) (evs : List Event)
+    (h : ∀ e, e ∈ evs → e.isRelease = true) : noMAtPresses M V outM evs = true := by
+  induction evs generalizing V with
+  | nil => rfl
+  | cons e es ih =>
+    cases e with
+    | pressed x => have := h (Event.pressed x) (by simp); simp [Event.isRelease] at this
+    | released x => simp only [noMAtPresses]; exact ih _ (fun e he => h e (by simp [he]))
+
+theorem noMAtPresses_congr (M : Key) {V W : List Key} (h : ∀ k, k ∈ V ↔ k ∈ W) (outM : Bool) (evs : List Event) :
+    noMAtPresses M V outM evs = noMAtPresses M W outM evs := by
+  induction evs generalizing V W with
+  | nil => rfl
+  | cons e es ih =>
+    cases e with
+    | pressed x =>
+      simp only [noMAtPresses, contains_congr h M]
+      congr 1
+      exact ih (fun k => mem_applyEv_congr h _ k)
+    | released x =>
+      simp only [noMAtPresses]
+      exact ih (fun k => mem_applyEv_congr h _ k)
+
+/-- only modifiers are pressed: clause (ii) is vacuous -/
+theorem noMAtPresses_modifiers (M : Key) (V : List Key) (outM : Bool) (evs : List Event)
+    (h : ∀ x, Event.pressed x ∈ evs → isActionKey x = false) : noMAtPresses M V outM evs = true := by
+  induction evs generalizing V with
+  | nil => rfl
+  | cons e es ih =>
+    cases e with
+    | pressed x =>
+      simp only [noMAtPresses, h x (by simp), Bool.not_false, Bool.true_or, Bool.true_and]
+      exact ih _ (fun y hy => h y (by simp [hy]))
+    | released x => simp only [noMAtPresses]; exact ih _ (fun y hy => h y (by simp [hy]))
+
+/-- the press loop: if M is down (before or by the loop) only when a mapping in effect outputs it,
+clause (ii) holds at every press of the loop -/
+theorem pressAll_noM {extra : List Key} (M : Key) (outM : Bool) (s : State) (ks : List Key) (V : List Key)
+    (h : IInv extra s) (hk : ∀ k, k ∈ ks → k ∈ extra) (hV : ∀ y, y ∈ V ↔ y ∈ held s)
+    (hM : M ∈ held s → outM = true) (hks : M ∈ ks → outM = true) :
+    noMAtPresses M V outM (pressAll s ks).2 = true := by
+  induction ks generalizing s V with
+  | nil => rfl
+  | cons k ks ih =>
+    rw [pressAll_cons, noMAtPresses_append]
+    have p := pressOne_spec s k h (hk k (by simp))
+    obtain ⟨p1, p2, p3, _, _, _, _, _, _⟩ := p
+    have hMV : M ∈ V → outM = true := fun hm => hM ((hV M).mp hm)
+    have h1 : noMAtPresses M V outM (pressOne s k).2 = true := by
+      unfold pressOne
+      split
+      · split
+        · simp only [noMAtPresses, Bool.and_true]
+          by_cases hm : M ∈ V
+          · simp [hMV hm]
+          · simp [hm]
+        · split
+          · simp only [noMAtPresses, Bool.and_true]
+            by_cases hm : M ∈ V
+            · simp [hMV hm]
+            · simp [hm]
+          · simp only [noMAtPresses, Bool.and_true]
+            by_cases hm : M ∈ V
+            · simp [hMV hm]
+            · simp [hm]
+      · split
+        · simp only [noMAtPresses, Bool.and_true]
+          by_cases hm : M ∈ V
+          · simp [hMV hm]
+          · simp [hm]
+        · rfl
+    rw [h1, Bool.true_and]
+    have hV1 : ∀ y, y ∈ foldEvs V (pressOne s k).2 ↔ y ∈ held (pressOne s k).1 :=
+      (p2.congr_left (fun y => (hV y).symm)).2
+    apply ih (pressOne s k).1 _ p1 (fun x hx => hk x (by simp [hx])) hV1
+    · intro hm
+      rcases (p3 M).mp hm with h2 | h2
+      · exact hM h2
+      · exact hks (by simp [h2])
+    · intro hm; exact hks (by simp [hm])
+
+/-- C08 clause (ii), for every layout satisfying H1 ∧ H2, every history, every pending obligation (M, t):
+in a step about another key, whenever a non-modifier key is pressed on the virtual keyboard, M is not
+down there — unless a mapping in effect after the step outputs M -/
+theorem C08_partial_ii (L : Layout) (h1 : H1 L) (h2 : H2 L) (y : Sys8) (hy : Reachable8 L y) (ob : Obl) (hob : ob ∈ y.obls)
+    (k : Key) (hk : k ∉ y.x.s.inp) (hkt : k ≠ ob.t) (hkM : k ≠ ob.M) :
+    c08ii (y.x.obs L (Event.pressed k)) ob = true := by
+  have hx := hy.reachableEv.reachable
+  have hs := hx.sinv
+  have hok := hy.oblInv h2 ob hob
+  have h0 := pressPrep_iinv k hs.inv.i
+  have hV0 : ∀ z, z ∈ y.x.V ↔ z ∈ held (pressPrep y.x.s k) := fun z => hs.vheld z
+  unfold c08ii
+  simp only [Sys.obs, step_pressed_accepted L y.x.s k hk]
+  -- the obligation at the prepared state
+  have hok0 : (ob.M ∈ (pressPrep y.x.s k).absorbed ∧ shouldAbsorb (pressPrep y.x.s k) k = true) ∨
+      ob.M ∉ (pressPrep y.x.s k).inp := by
+    rcases hok with ⟨ha, ht⟩ | hn
+    · left
+      refine ⟨by simp [pressPrep, ha, Ne.symm hkM], ?_⟩
+      simp only [shouldAbsorb, pressPrep, ht, bne_iff_ne, ne_eq]
+      exact fun e => hkt e.symm
+    · exact Or.inr hn
+  cases hf : findMapping L y.x.s k with
+  | some fm =>
+    have fin := newlyPress_fire_finish hf
+    rw [fin.2.1]
+    have hfmL := (findMapping_some hf).1
+    have c := consume_spec (pressPrep y.x.s k) fm h0
+    simp only [List.nil_append] at c
+    obtain ⟨c1, c2, c3, _, _, _⟩ := c
+    have d := addPhase2_spec (afterConsume (pressPrep y.x.s k) fm) k fm c1
+    obtain ⟨d1, d2, _, _⟩ := d
+    have hact' : (newlyPress L y.x.s k).1.active = (addPhase2 (afterConsume (pressPrep y.x.s k) fm) k fm).1.active ++ [fm] := by
+      rw [fin.1]; exact (finishFire_fields _ k fm).2.1
+    rw [hact']
+    generalize houtM : ((addPhase2 (afterConsume (pressPrep y.x.s k) fm) k fm).1.active ++ [fm]).any
+      (fun m => m.to.contains ob.M) = outM
+    have hout_fm : ob.M ∈ fm.to → outM = true := by
+      intro h; rw [← houtM]; simp only [List.any_eq_true]; exact ⟨fm, by simp, by simpa using h⟩
+    have hout_act : ∀ m', m' ∈ (addPhase2 (afterConsume (pressPrep y.x.s k) fm) k fm).1.active → ob.M ∈ m'.to → outM = true := by
+      intro m' hm' h; rw [← houtM]; simp only [List.any_eq_true]; exact ⟨m', by simp [hm'], by simpa using h⟩
+    -- release-only prefix and suffix
+    have e4 : ∀ e, e ∈ (addPhase4 (addPhase3 (addPhase2 (afterConsume (pressPrep y.x.s k) fm) k fm).1 k fm).1 k fm).2.1 →
+        e.isRelease = true := by
+      intro e he
+      unfold addPhase4 at he
+      cases hr : fm.rep <;> simp [hr, releaseAllActionKeys] at he
+      all_goals (rcases he with ⟨a, _, rfl⟩ | ⟨a, _, rfl⟩ <;> rfl)
+    rw [noMAtPresses_append, noMAtPresses_append, noMAtPresses_append,
+      noMAtPresses_releases _ _ _ _ c3, noMAtPresses_releases _ _ _ _ d2.allRel, noMAtPresses_releases _ _ _ _ e4]
+    simp only [Bool.true_and, Bool.and_true]
+    have hev3 : (addPhase3 (addPhase2 (afterConsume (pressPrep y.x.s k) fm) k fm).1 k fm).2 =
+        (pressAll (addPhase2 (afterConsume (pressPrep y.x.s k) fm) k fm).1 fm.to).2 := rfl
+    rw [hev3]
+    have em2 := (c2.trans d2.emits).congr_left (fun z => (hV0 z).symm)
+    have hV2 : ∀ z, z ∈ foldEvs y.x.V ((consume fm (pressPrep y.x.s k).pass).2.2 ++
+        (addPhase2 (afterConsume (pressPrep y.x.s k) fm) k fm).2) ↔
+        z ∈ held (addPhase2 (afterConsume (pressPrep y.x.s k) fm) k fm).1 := em2.2
+    cases hact : isActionMapping fm with
+    | false =>
+      -- under H1 a mapping whose output ends in a modifier (or is empty) has only modifiers
+      apply noMAtPresses_modifiers
+      intro x hx
+      have hxto : x ∈ fm.to := (pressAll_spec _ fm.to d1 (fun _ h => h)).2.2.2.2.2.1 x hx
+      cases hl : fm.to.getLast? with
+      | none => have : fm.to = [] := List.getLast?_eq_none_iff.mp hl; rw [this] at hxto; simp at hxto
+      | some kl =>
+        have hne : fm.to ≠ [] := by intro e; simp [e] at hl
+        have hkl : isActionKey kl = false := by simpa [isActionMapping, hl] using hact
+        have hsplit := List.dropLast_concat_getLast hne
+        have hlast : fm.to.getLast hne = kl := by
+          have := List.getLast?_eq_some_getLast hne; rw [hl] at this; exact (Option.some.inj this).symm
+        rw [← hsplit, hlast] at hxto
+        simp only [List.mem_append, List.mem_singleton] at hxto
+        rcases hxto with h | h
+        · exact h1 fm hfmL x h
+        · rw [h]; exact hkl
+    | true =>
+      -- key-producing: if M was absorbed, release_absorbed_keys has removed it as input
+      have hMinp : ob.M ∉ (addPhase2 (afterConsume (pressPrep y.x.s k) fm) k fm).1.inp := by
+        rcases hok0 with ⟨ha, hsa⟩ | hn
+        · rcases addPhase2_aux_fields (afterConsume (pressPrep y.x.s k) fm) k fm c1 with ⟨_, _, _, _, hinp⟩ | ⟨hnot, _⟩
+          · intro hx; exact ((hinp ob.M).mp hx).2 ha
+          · exact absurd ⟨hact, hsa⟩ hnot
+        · exact fun hx => hn (d2.inpSub ob.M hx)
+      apply pressAll_noM ob.M outM _ fm.to _ d1 (fun _ h => h) hV2
+      · intro hm
+        rcases (mem_held _ ob.M).mp hm with hp | hmp
+        · exact absurd (d1.passInp ob.M hp) hMinp
+        · rcases d1.mappedAct ob.M hmp with h3 | ⟨m', hm', h3⟩
+          · exact hout_fm h3
+          · exact hout_act m' hm' h3
+      · exact hout_fm
+  | none =>
+    cases hcn : noHit y.x.s k with
+    | false => rw [newlyPress_skip hf hcn]; rfl
+    | true =>
+      rw [newlyPress_pass hf hcn]
+      cases hak : isActionKey k with
+      | false =>
+        rw [passThrough_nonaction _ k hak]
+        simp [noMAtPresses, hak]
+      | true =>
+        rw [passThrough_action _ k hak]
+        have r1 := releaseActionMappings_spec h0
+        have q := releaseAbsorbedKeys_spec _ r1.1
+        simp only
+        rw [noMAtPresses_append, noMAtPresses_append, noMAtPresses_releases _ _ _ _ r1.2.allRel,
+          noMAtPresses_releases _ _ _ _ q.2.1.allRel]
+        simp only [Bool.true_and, noMAtPresses, Bool.and_true, hak, Bool.not_true, Bool.false_or,
+          Bool.or_eq_true, Bool.not_eq_eq_eq_not, Bool.not_true]
+        have em := (r1.2.emits.trans q.2.1.emits).congr_left (fun z => (hV0 z).symm)
+        by_cases hm : ob.M ∈ foldEvs y.x.V ((releaseActionMappings (pressPrep y.x.s k)).2 ++
+            (releaseAbsorbedKeys (releaseActionMappings (pressPrep y.x.s k)).1).2)
+        · right
+          have hmh := (em.2 ob.M).mp hm
+          have f := releaseActionMappings_frame (pressPrep y.x.s k)
+          have hMinp : ob.M ∉ (releaseAbsorbedKeys (releaseActionMappings (pressPrep y.x.s k)).1).1.inp := by
+            intro hx
+            have := (q.2.2.2.2.2.1 ob.M).mp hx
+            rw [f.1, f.2.2.1] at this
+            rcases hok0 with ⟨ha, _⟩ | hn
+            · exact this.2 ha
+            · exact hn this.1
+          rcases (mem_held _ ob.M).mp hmh with hp | hmp
+          · exact absurd (q.1.passInp ob.M hp) hMinp
+          · rcases q.1.mappedAct ob.M hmp with h3 | ⟨m', hm', h3⟩
+            · simp at h3
+            · simp only [List.any_eq_true]; exact ⟨m', hm', by simpa using h3⟩
+        · left; simpa using hm
+
+/-! ### clause (iii) under H2 -/
+
+/-- the mapping a press of `t` fires when nothing is treated as absorbed (the case of a re-press of the
+absorbing trigger) -/
+def suppNow (L : Layout) (s : State) (t : Key) : Option Mapping :=
+  (group L t).reverse.find? (fun m' => isSupported m'.frm s.inp [] t)
+
+theorem isSupported_congr (frm : List Key) (i i' a a' : List Key) (t : Key)
+    (h : ∀ x, ((x ∈ i ∧ x ∉ a) ∨ x = t) ↔ ((x ∈ i' ∧ x ∉ a') ∨ x = t)) :
+    isSupported frm i a t = isSupported frm i' a' t := by
+  unfold isSupported
+  apply List.all_congr rfl
+  intro x
+  have := h x
+  rw [Bool.eq_iff_iff]
+  simpa using this
+
+theorem suppNow_congr (L : Layout) (s s' : State) (t : Key)
+    (h : ∀ x, (x ∈ s.inp ∨ x = t) ↔ (x ∈ s'.inp ∨ x = t)) : suppNow L s t = suppNow L s' t := by
+  unfold suppNow
+  congr 1
+  funext m'
+  exact isSupported_congr _ _ _ _ _ _ (by intro x; simpa using h x)
+
+theorem findMapping_of_absTrig (L : Layout) (s : State) (t : Key) (h : s.absTrig = some t) :
+    findMapping L s t = suppNow L s t := by
+  unfold findMapping suppNow
+  have : shouldAbsorb (pressPrep s t) t = false := by simp [shouldAbsorb, pressPrep, h]
+  simp only [this, Bool.false_eq_true, if_false]
+  rfl
+
+/-- the invariant of a fresh obligation: nothing but (possibly) the trigger has been released since the
+mapping fired and no other key has been pressed; while the held set is still the one of the firing,
+`absorbing_trigger` is still `t` and the re-press would select the same mapping -/
+def FreshOk (L : Layout) (P : List Key) (s : State) (ob : Obl) : Prop :=
+  ob.fresh = true →
+    (∀ x, x ∈ P → x ∈ ob.held) ∧ ob.t ∈ ob.held ∧ ob.M ∈ ob.m.absorbing ∧
+    ((∀ x, x ∈ ob.held → x ∈ P ∨ x = ob.t) → s.absTrig = some ob.t ∧ suppNow L s ob.t = some ob.m)
+
+def FreshInv (L : Layout) (y : Sys8) : Prop := ∀ ob, ob ∈ y.obls → FreshOk L y.x.P y.x.s ob
+
+theorem mem_nextObls_fresh {o : Obs} {obls : List Obl} {ob : Obl} (h : ob ∈ nextObls o obls) (hfr : ob.fresh = true) :
+    (ob ∈ obls ∧ ob.M ≠ o.e.key ∧
+      (∀ k, o.e = Event.pressed k → o.accepted = true →
+        ob.t = k ∧ ∀ fm, o.fired = some fm → ob.M ∉ fm.absorbing)) ∨
+    (∃ k fm, o.e = Event.pressed k ∧ o.accepted = true ∧ o.fired = some fm ∧ ob.M ∈ fm.absorbing ∧
+      ob.t = k ∧ ob.m = fm ∧ ob.held = o.P') := by
+  unfold nextObls at h
+  cases he : o.e with
+  | released k =>
+    simp only [he] at h
+    simp only [List.mem_filter, bne_iff_ne, ne_eq] at h
+    exact Or.inl ⟨h.1, by simpa [he, Event.key] using h.2, by intro k' hk'; simp at hk'⟩
+  | pressed k =>
+    simp only [he] at h
+    cases hacc : o.accepted with
+    | false =>
+      simp only [hacc, Bool.not_false, if_true, List.mem_filter, bne_iff_ne, ne_eq] at h
+      exact Or.inl ⟨h.1, by simpa [he, Event.key] using h.2, by intro k' _ hc; simp at hc⟩
+    | true =>
+      simp only [hacc, Bool.not_true, Bool.false_eq_true, if_false] at h
+      cases hf : o.fired with
+      | none =>
+        simp only [hf, List.mem_map, List.mem_filter, bne_iff_ne, ne_eq] at h
+        obtain ⟨ob0, ⟨hm, hne⟩, heq⟩ := h
+        left
+        by_cases hc : (ob0.t == (Event.pressed k).key) = true
+        · rw [if_pos hc] at heq
+          subst heq
+          have ht : ob0.t = k := by simpa [Event.key] using hc
+          exact ⟨hm, by simpa [he, Event.key] using hne,
+            by intro k' hk' _; simp only [Event.pressed.injEq] at hk'; subst hk'; exact ⟨ht, by intro fm hfm; simp at hfm⟩⟩
+        · rw [if_neg hc] at heq
+          subst heq; simp at hfr
+      | some fm =>
+        simp only [hf, List.mem_append, List.mem_filter, List.mem_map, bne_iff_ne, ne_eq] at h
+        rcases h with ⟨⟨ob0, ⟨hm, hne⟩, heq⟩, hnab⟩ | ⟨M, hM, heq⟩
+        · left
+          by_cases hc : (ob0.t == (Event.pressed k).key) = true
+          · rw [if_pos hc] at heq
+            subst heq
+            have ht : ob0.t = k := by simpa [Event.key] using hc
+            refine ⟨hm, by simpa [he, Event.key] using hne, ?_⟩
+            intro k' hk' _
+            simp only [Event.pressed.injEq] at hk'; subst hk'
+            refine ⟨ht, ?_⟩
+            intro fm' hfm'
+            simp only [Option.some.injEq] at hfm'; subst hfm'
+            simpa using hnab
+          · rw [if_neg hc] at heq
+            subst heq; simp at hfr
+        · right
+          subst heq
+          exact ⟨k, fm, rfl, rfl, rfl, hM, rfl, rfl, rfl⟩
+
+/-- what a firing of an absorbing mapping leaves behind, in a layout satisfying H2: `absorbing_trigger`
+is the pressed key and a re-press would select the same mapping -/
+theorem fire_suppNow {L : Layout} (h2 : H2 L) {P : List Key} {s : State} (hinv : Inv L P s) {k : Key} {fm : Mapping}
+    (hf : findMapping L s k = some fm) (hab : fm.absorbing ≠ []) :
+    (newlyPress L s k).1.absTrig = some k ∧ suppNow L (newlyPress L s k).1 k = some fm := by
+  have h0 := pressPrep_iinv k hinv.i
+  have fin := newlyPress_fire_finish hf
+  rw [fin.1]
+  have ff := finishFire_fields (addPhase2 (afterConsume (pressPrep s k) fm) k fm).1 k fm
+  have c1 := (consume_spec (pressPrep s k) fm h0).1
+  have p2 := addPhase2_aux_fields (afterConsume (pressPrep s k) fm) k fm c1
+  have hfmL := (findMapping_some hf).1
+  have hact := h2 fm hfmL hab
+  have hlen : fm.absorbing.length > 0 := by
+    cases hh : fm.absorbing with
+    | nil => exact absurd hh hab
+    | cons a l => simp
+  refine ⟨by rw [ff.2.2.2]; simp [hlen], ?_⟩
+  rw [← hf]
+  unfold suppNow findMapping
+  congr 1
+  funext m'
+  apply isSupported_congr
+  intro x
+  rw [ff.1]
+  have hsa : shouldAbsorb (afterConsume (pressPrep s k) fm) k = shouldAbsorb (pressPrep s k) k := rfl
+  rcases p2 with ⟨_, hsh, _, _, hinp2⟩ | ⟨hnot, _, _, hinp2⟩
+  · rw [hsa] at hsh
+    simp only [hsh, if_true, List.mem_append, List.mem_singleton, hinp2 x]
+    have e1 : (afterConsume (pressPrep s k) fm).inp = (pressPrep s k).inp := rfl
+    have e2 : (afterConsume (pressPrep s k) fm).absorbed = (pressPrep s k).absorbed := rfl
+    rw [e1, e2]
+    simp
+  · have hsh : shouldAbsorb (pressPrep s k) k = false := by
+      cases hh : shouldAbsorb (pressPrep s k) k with
+      | false => rfl
+      | true => rw [← hsa] at hh; exact absurd ⟨hact, hh⟩ hnot
+    simp only [hsh, Bool.false_eq_true, if_false, List.mem_append, List.mem_singleton, hinp2]
+    have e1 : (afterConsume (pressPrep s k) fm).inp = (pressPrep s k).inp := rfl
+    rw [e1]
+    simp
+
+theorem FreshInv.next {L : Layout} (h2 : H2 L) {y : Sys8} (hy : Reachable8 L y) (hi : FreshInv L y) (e : Event) :
+    FreshInv L (y.next L e) := by
+  intro ob hob hfr
+  have hx := hy.reachableEv.reachable
+  have hs := hx.sinv
+  simp only [Sys8.next] at hob ⊢
+  rcases mem_nextObls_fresh hob hfr with ⟨hm0, hne, hpr⟩ | ⟨k, fm, he, hacc, hfired, hab, htk, hmfm, hheld⟩
+  · -- an old fresh obligation that survives unchanged
+    obtain ⟨hP, htH, hMab, hg⟩ := hi ob hm0 hfr
+    cases e with
+    | released r =>
+      have hP' : ∀ x, x ∈ applyEv y.x.P (Event.released r) → x ∈ y.x.P := by
+        intro x hx'; simp only [applyEv, List.mem_filter] at hx'; exact hx'.1
+      refine ⟨fun x hx' => hP x (hP' x hx'), htH, hMab, ?_⟩
+      intro hg'
+      simp only [Sys.next] at hg' ⊢
+      by_cases hrt : r = ob.t
+      · subst hrt
+        have hgd : ∀ x, x ∈ ob.held → x ∈ y.x.P ∨ x = ob.t := by
+          intro x hx'; rcases hg' x hx' with h | h
+          · exact Or.inl (hP' x h)
+          · exact Or.inr h
+        obtain ⟨hat, hsn⟩ := hg hgd
+        by_cases hin : ob.t ∈ y.x.s.inp
+        · rw [step_released_accepted L y.x.s ob.t hin]
+          have r := releaseKey_spec ob.t hs.inv.i
+          have hst : (newlyRelease y.x.s ob.t).1 = (releaseKey y.x.s ob.t).1 := rfl
+          rw [hst]
+          refine ⟨by rw [r.2.2.2.2.1]; exact hat, ?_⟩
+          rw [← hsn]
+          apply suppNow_congr
+          intro x; rw [r.2.2.2.2.2.2 x]
+          by_cases hxt : x = ob.t <;> simp [hxt]
+        · rw [step_released_ignored L y.x.s ob.t hin]; exact ⟨hat, hsn⟩
+      · -- another key is released: if it was held the held set has shrunk for good
+        by_cases hrP : r ∈ y.x.P
+        · exfalso
+          rcases hg' r (hP r hrP) with h | h
+          · simp [applyEv] at h
+          · exact hrt h
+        · have hin : r ∉ y.x.s.inp := fun h => hrP (hs.inv.inpP r h)
+          rw [step_released_ignored L y.x.s r hin]
+          apply hg
+          intro x hx'; rcases hg' x hx' with h | h
+          · exact Or.inl (hP' x h)
+          · exact Or.inr h
+    | pressed k =>
+      by_cases hk : k ∈ y.x.s.inp
+      · -- ignored press
+        have hkP : k ∈ y.x.P := hs.inv.inpP k hk
+        have hPe : applyEv y.x.P (Event.pressed k) = y.x.P := by simp [applyEv, hkP]
+        simp only [Sys.next, hPe, step_pressed_ignored L y.x.s k hk]
+        exact ⟨hP, htH, hMab, hg⟩
+      · have hacc : (y.x.obs L (Event.pressed k)).accepted = true := by simp [Obs.accepted, Sys.obs, hk]
+        obtain ⟨htk, hnab⟩ := hpr k rfl hacc
+        have hP' : ∀ x, x ∈ applyEv y.x.P (Event.pressed k) → x ∈ y.x.P ∨ x = ob.t := by
+          intro x hx'; simp only [applyEv] at hx'
+          split at hx'
+          · exact Or.inl hx'
+          · simp only [List.mem_append, List.mem_singleton] at hx'
+            rcases hx' with h | h
+            · exact Or.inl h
+            · exact Or.inr (by rw [h, htk])
+        refine ⟨?_, htH, hMab, ?_⟩
+        · intro x hx'; rcases hP' x hx' with h | h
+          · exact hP x h
+          · rw [h]; exact htH
+        · intro hg'
+          exfalso
+          have hgd : ∀ x, x ∈ ob.held → x ∈ y.x.P ∨ x = ob.t := by
+            intro x hx'; rcases hg' x hx' with h | h
+            · exact hP' x h
+            · exact Or.inr h
+          obtain ⟨hat, hsn⟩ := hg hgd
+          have hf : findMapping L y.x.s k = some ob.m := by
+            rw [← htk, findMapping_of_absTrig L y.x.s ob.t hat]; exact hsn
+          have hfired : (y.x.obs L (Event.pressed k)).fired = some ob.m := by rw [fired_eq hs k hk]; exact hf
+          exact hnab ob.m hfired hMab
+  · -- a new obligation
+    have he' : e = Event.pressed k := by simpa [Sys.obs] using he
+    subst he'
+    have hk : k ∉ y.x.s.inp := by simpa [Obs.accepted, Sys.obs] using hacc
+    have hf : findMapping L y.x.s k = some fm := by rw [← fired_eq hs k hk]; exact hfired
+    have hne : fm.absorbing ≠ [] := by intro e; rw [e] at hab; simp at hab
+    have fs := fire_suppNow h2 hs.inv hf hne
+    have hP'eq : (y.x.obs L (Event.pressed k)).P' = applyEv y.x.P (Event.pressed k) := rfl
+    simp only [Sys.next, step_pressed_accepted L y.x.s k hk]
+    refine ⟨?_, ?_, by rw [hmfm]; exact hab, ?_⟩
+    · intro x hx'; rw [hheld, hP'eq]; exact hx'
+    · rw [hheld, hP'eq, htk]; simp only [applyEv]; split
+      · rename_i hc; simpa using hc
+      · simp
+    · intro _; rw [htk, hmfm]; exact fs
+
+theorem Reachable8.freshInv {L : Layout} (h2 : H2 L) {y : Sys8} (hy : Reachable8 L y) : FreshInv L y := by
+  obtain ⟨evs, rfl⟩ := hy
+  suffices ∀ (z : Sys8), Reachable8 L z → FreshInv L z → FreshInv L (Sys8.run L z evs) from
+    this Sys8.init ⟨[], rfl⟩ (by intro ob hob; simp [Sys8.init] at hob)
+  induction evs with
+  | nil => exact fun z _ h => h
+  | cons e es ih =>
+    intro z hz hi
+    simp only [Sys8.run, List.foldl_cons]
+    have hz' : Reachable8 L (z.next L e) := by
+      obtain ⟨evs0, rfl⟩ := hz
+      exact ⟨evs0 ++ [e], by simp [Sys8.run, List.foldl_append]⟩
+    exact ih _ hz' (FreshInv.next h2 hz hi e)
+
+/-- C08 clause (iii), for every layout satisfying H2, every history, every pending obligation
+(M, t, m, held) that is still fresh (no other key pressed since m fired): an accepted re-press of t with
+the same keys held fires the same mapping m again -/
+theorem C08_partial_iii (L : Layout) (h2 : H2 L) (y : Sys8) (hy : Reachable8 L y) (ob : Obl) (hob : ob ∈ y.obls)
+    (hfr : ob.fresh = true) (hk : ob.t ∉ y.x.s.inp)
+    (hsame : sameSet (y.x.obs L (Event.pressed ob.t)).P' ob.held = true) :
+    c08iii (y.x.obs L (Event.pressed ob.t)) ob = true := by
+  have hs := hy.reachableEv.reachable.sinv
+  obtain ⟨_, _, _, hg⟩ := hy.freshInv h2 ob hob hfr
+  have hgd : ∀ x, x ∈ ob.held → x ∈ y.x.P ∨ x = ob.t := by
+    intro x hx
+    simp only [sameSet, Bool.and_eq_true, List.all_eq_true, List.contains_eq_mem, decide_eq_true_eq] at hsame
+    have := hsame.2 x hx
+    have hP'eq : (y.x.obs L (Event.pressed ob.t)).P' = applyEv y.x.P (Event.pressed ob.t) := rfl
+    rw [hP'eq] at this
+    simp only [applyEv] at this
+    split at this
+    · exact Or.inl this
+    · simp only [List.mem_append, List.mem_singleton] at this; exact this
+  obtain ⟨hat, hsn⟩ := hg hgd
+  unfold c08iii
+  rw [fired_eq hs ob.t hk, findMapping_of_absTrig L y.x.s ob.t hat, hsn]
+  simp
+
+/-! ### the full statement restricted to layouts satisfying H1 ∧ H2 -/
+
+/-- C08 for every layout satisfying H1 ∧ H2: the trace monitor accepts every step of every history -/
+theorem C08_partial (L : Layout) (h1 : H1 L) (h2 : H2 L) (y : Sys8) (hy : Reachable8 L y) (e : Event) :
+    monC08 (y.x.obs L e) y.obls = [] := by
+  unfold monC08
+  cases e with
+  | released k => rfl
+  | pressed k =>
+    have he : (y.x.obs L (Event.pressed k)).e = Event.pressed k := rfl
+    simp only [he]
+    cases hacc : (y.x.obs L (Event.pressed k)).accepted with
+    | false => rfl
+    | true =>
+      have hk : k ∉ y.x.s.inp := by simpa [Obs.accepted, Sys.obs] using hacc
+      simp only [Bool.not_true, Bool.false_eq_true, if_false, List.flatMap_eq_nil_iff, List.mem_filter,
+        bne_iff_ne, ne_eq]
+      intro ob ⟨hob, hMk⟩
+      have hkM : k ≠ ob.M := fun e => hMk e.symm
+      by_cases hkt : ob.t = k
+      · rw [if_neg (fun hn => hn hkt)]
+        cases hc : (ob.fresh && sameSet (y.x.obs L (Event.pressed k)).P' ob.held) with
+        | false => rfl
+        | true =>
+          simp only [if_true]
+          simp only [Bool.and_eq_true] at hc
+          subst hkt
+          rw [C08_partial_iii L h2 y hy ob hob hc.1 hk hc.2]
+          rfl
+      · have hkt' : k ≠ ob.t := fun e => hkt e.symm
+        rw [if_pos hkt]
+        simp only [C08_partial_i_monitor L h2 y hy ob hob k hk hkt' hkM,
+          C08_partial_ii L h1 h2 y hy ob hob k hk hkt' hkM, if_true, List.append_nil]
 
 /-! ### the full statement is false outside H1 ∧ H2 (known findings D6, D7) -/
 
